@@ -448,6 +448,22 @@ pub fn split_plan(tape: &[u32]) -> SplitPlan {
                 text.push_str(&format!(" {}^{}", factor, pw));
             }
         }
+        // now and then the whole definition is a property of a bundled substance, named by its
+        // name, its symbol or a formula (`molar_mass of CO2`): a reference the loader has to order too
+        if t.chance(15) {
+            text = [
+                "molar_mass of CO2",
+                "molar_mass of NaCl",
+                "molar_mass of He",
+                "molar_mass of C2H5OH",
+                "density of water",
+                "molar_mass of Fe",
+                "density of Hg",
+                "3 molar_mass of CH4",
+            ][t.pick(8)]
+            .to_string();
+            refs.clear();
+        }
         units.push((name.clone(), format!("{} {}\n", name, text), refs));
     }
     let place: Vec<u8> = (0..n).map(|_| t.pick(2) as u8).collect();
